@@ -888,23 +888,85 @@ func nilWalk(fn *ssa.Function, from map[Edge]bool, after ssa.Instruction, cut ma
 					delete(nl, k)
 				}
 			}
-			for i, x := range rfs {
-				var key ssa.Value = fr.call
-				if len(ret.Results) > 1 {
-					key = retOf{fr.call, i}
+			// a boolean result that is a nil test of a value of unknown nilness (`return err == nil`):
+			// the walk forks, each continuation knowing both the result and the nilness
+			type forkT struct {
+				idx    int
+				v      ssa.Value
+				eqTrue bool // the result is true when v is nil
+			}
+			var fork *forkT
+			for i, rv := range ret.Results {
+				if rfs[i].bknown {
+					continue
 				}
-				if x.known {
-					g[key] = x.n
-				} else {
-					delete(g, key)
+				if bt, ok := rv.Type().Underlying().(*types.Basic); !ok || bt.Kind() != types.Bool {
+					continue
 				}
-				if x.bknown {
-					g[boolOf{key}] = x.bv
-				} else {
-					delete(g, boolOf{key})
+				a := NormCond(rv)
+				if a.Op != token.EQL || !(IsNil(a.X) || IsNil(a.Y)) {
+					continue
+				}
+				v := a.X
+				if IsNil(a.X) {
+					v = a.Y
+				}
+				if kn, n := Nilness(v, f); kn {
+					rfs[i].bknown, rfs[i].bv = true, n != a.Negated
+					continue
+				}
+				if fork == nil {
+					fork = &forkT{i, v, !a.Negated}
 				}
 			}
-			work = append(work, item{fr.blk, nil, g, fr.next, nl, it.stack[:len(it.stack)-1], it.ups})
+			emit := func(g NilFacts, nl map[ssa.Value]ssa.Value) {
+				for k := range g {
+					if factOwner(k) == callee {
+						delete(g, k)
+					}
+				}
+				for i, x := range rfs {
+					var key ssa.Value = fr.call
+					if len(ret.Results) > 1 {
+						key = retOf{fr.call, i}
+					}
+					if x.known {
+						g[key] = x.n
+					} else {
+						delete(g, key)
+					}
+					if x.bknown {
+						g[boolOf{key}] = x.bv
+					} else {
+						delete(g, boolOf{key})
+					}
+				}
+				work = append(work, item{fr.blk, nil, g, fr.next, nl, it.stack[:len(it.stack)-1], it.ups})
+			}
+			if fork != nil {
+				for _, isNil := range []bool{true, false} {
+					g2 := f.clone()
+					g2[fork.v] = isNil
+					if u, ok := fork.v.(*ssa.UnOp); ok && u.Op == token.MUL {
+						if cl, ok := isCell(u.X); ok {
+							g2[contentOf{cl}] = isNil
+							if sv, ok := lastStored[cl]; ok {
+								g2[sv] = isNil
+							}
+						}
+					}
+					rfs[fork.idx].bknown, rfs[fork.idx].bv = true, isNil == fork.eqTrue
+					nl2 := cloneLast(lastStored)
+					for k := range nl2 {
+						if factOwner(k) == callee {
+							delete(nl2, k)
+						}
+					}
+					emit(g2, nl2)
+				}
+				continue
+			}
+			emit(g, nl)
 			continue
 		}
 		if ifi, ok := last.(*ssa.If); ok {
